@@ -46,6 +46,8 @@ struct Rows {
     cycles: usize,
     /// per row t: full stack (top 16 + overflow of the current context, top first)
     stack: Vec<Vec<u64>>,
+    /// per row t: the overflow elements of the suspended (calling) contexts, innermost caller first
+    hidden: Vec<Vec<u64>>,
     fmp: Vec<u64>,
     ctx: Vec<u64>,
     opcode: Vec<u8>,
@@ -62,11 +64,13 @@ fn rows_of(t: &processor::ExecutionTrace, inputs_top_first: &[u64]) -> Rows {
     let mut ov: Vec<u64> = inputs_top_first.iter().skip(16).cloned().collect(); // top of the overflow first
     let mut saved: Vec<Vec<u64>> = vec![];
     let mut stack = vec![];
+    let mut hidden: Vec<Vec<u64>> = vec![];
     let (mut fmp, mut ctx, mut opcode) = (vec![], vec![], vec![]);
     for r in 0..=cycles.min(n - 2) {
         let mut s: Vec<u64> = (0..16).map(|i| g(S0 + i, r)).collect();
         s.extend(ov.iter());
         stack.push(s);
+        hidden.push(saved.iter().rev().flatten().cloned().collect::<Vec<u64>>());
         fmp.push(g(FMP, r));
         ctx.push(g(CTXC, r));
         let mut o = 0u8;
@@ -109,45 +113,58 @@ fn rows_of(t: &processor::ExecutionTrace, inputs_top_first: &[u64]) -> Rows {
         mm.retain(|_, w| *w != [0; 4]);
         mem.push(mm);
     }
-    Rows { cycles, stack, fmp, ctx, opcode, mem }
+    Rows { cycles, stack, hidden, fmp, ctx, opcode, mem }
 }
 
-fn check_state(s: &VmState, rows: &Rows) -> Option<(String, String)> {
+/// every aspect in which the reported state differs from trace row `clk` (all of them: a deviation in
+/// one aspect - e.g. the recorded overflow-lag finding - must not hide a deviation in another)
+fn check_state(s: &VmState, rows: &Rows) -> Vec<(String, String)> {
+    let mut out = vec![];
     let t = s.clk as usize;
     if t >= rows.stack.len() {
-        return Some(("state_beyond_last_clock".into(), format!("clk {t}, program has {} cycles", rows.cycles)));
+        return vec![("state_beyond_last_clock".into(), format!("clk {t}, program has {} cycles", rows.cycles))];
     }
     let st: Vec<u64> = s.stack.iter().map(|x| x.as_int()).collect();
     let want = &rows.stack[t];
     if st.len() < 16 || st[..16] != want[..16] {
-        return Some(("top16_differs_from_trace".into(), format!("clk {t}: iterator {:?} trace {:?}", st, want)));
-    }
-    if st != *want {
+        out.push(("top16_differs_from_trace".into(), format!("clk {t}: iterator {:?} trace {:?}", st, want)));
+    } else if st != *want {
         // classify: is it the overflow content of the *next* row (taken after the operation), or
         // the initial overflow missing?
         let next = rows.stack.get(t + 1).map(|n| n[16..].to_vec());
         let lag = next.as_ref().map(|n| st[16..] == n[..]).unwrap_or(false);
         let initial_missing = st.len() == 16 && rows.stack[0].len() > 16 && want[16..] == rows.stack[0][16..];
-        let kind = if lag || initial_missing { "overflow_part_lags_by_one_operation" } else { "overflow_part_differs_from_trace" };
-        return Some((kind.into(), format!("clk {t}: iterator stack {:?} trace {:?}", st, want)));
+        // inside a call / syscall: the iterator also lists the overflow of the suspended callers
+        // (own part as of this row or - the lag above - of the next row, callers' part likewise)
+        let own: Vec<&[u64]> = [Some(&want[16..]), rows.stack.get(t + 1).map(|n| &n[16..])].into_iter().flatten().collect();
+        let callers: Vec<&[u64]> = [rows.hidden.get(t), rows.hidden.get(t + 1)].into_iter().flatten().map(|h| &h[..]).filter(|h| !h.is_empty()).collect();
+        let shows_callers = own.iter().any(|o| callers.iter().any(|h| st[16..].len() == o.len() + h.len() && st[16..16 + o.len()] == **o && st[16 + o.len()..] == **h));
+        let kind = if lag || initial_missing {
+            "overflow_part_lags_by_one_operation"
+        } else if shows_callers {
+            "overflow_part_lists_suspended_callers_overflow"
+        } else {
+            "overflow_part_differs_from_trace"
+        };
+        out.push((kind.into(), format!("clk {t}: iterator stack {:?} trace {:?}", st, want)));
     }
     if s.fmp.as_int() != rows.fmp[t] {
-        return Some(("fmp_differs_from_trace".into(), format!("clk {t}: {} vs {}", s.fmp.as_int(), rows.fmp[t])));
+        out.push(("fmp_differs_from_trace".into(), format!("clk {t}: {} vs {}", s.fmp.as_int(), rows.fmp[t])));
     }
     if u32::from(s.ctx) as u64 != rows.ctx[t] {
-        return Some(("ctx_differs_from_trace".into(), format!("clk {t}")));
+        out.push(("ctx_differs_from_trace".into(), format!("clk {t}: iterator ctx {} trace ctx {}", u32::from(s.ctx), rows.ctx[t])));
     }
     match (s.op, t) {
         (None, 0) => {}
         (Some(op), t) if t > 0 && op.op_code() == rows.opcode[t - 1] => {}
-        (op, _) => return Some(("op_differs_from_trace".into(), format!("clk {t}: {op:?}"))),
+        (op, _) => out.push(("op_differs_from_trace".into(), format!("clk {t}: {op:?}"))),
     }
     let mem: BTreeMap<u64, [u64; 4]> =
         s.memory.iter().map(|(a, w)| (*a, [w[0].as_int(), w[1].as_int(), w[2].as_int(), w[3].as_int()])).filter(|(_, w)| *w != [0; 4]).collect();
     if mem != rows.mem[t] {
-        return Some(("memory_differs_from_trace".into(), format!("clk {t}: iterator {:?} trace {:?}", mem, rows.mem[t])));
+        out.push(("memory_differs_from_trace".into(), format!("clk {t}: iterator {:?} trace {:?}", mem, rows.mem[t])));
     }
-    None
+    out
 }
 
 struct StepProg {
@@ -165,6 +182,8 @@ fn step_programs(tier: mcx::Tier) -> Vec<StepProg> {
         StepProg { name: "deep_inputs", src: "begin swap drop push.7 end", stack: deep.clone(), max_len: l },
         StepProg { name: "cross_16", src: "begin push.1 push.2 push.3 drop drop drop drop drop end", stack: (1..=17).collect(), max_len: l },
         StepProg { name: "call", src: "proc.f push.5 mem_store.3 mem_load.3 drop end begin push.9 mem_store.3 call.f mem_load.3 drop end", stack: deep.clone(), max_len: l },
+        StepProg { name: "call_nested", src: "proc.g push.7 mem_store.3 mem_load.3 drop end proc.f push.5 mem_store.3 call.g mem_load.3 drop end begin push.9 mem_store.3 call.f mem_load.3 drop end", stack: vec![1, 2], max_len: 8 },
+        StepProg { name: "dyncall", src: "proc.f push.5 mem_store.3 mem_load.3 drop end begin push.9 mem_store.3 procref.f dyncall dropw mem_load.3 drop end", stack: vec![1, 2], max_len: 8 },
         StepProg { name: "locals", src: "proc.f.2 push.4 loc_store.1 loc_load.1 drop end begin exec.f push.1 drop end", stack: vec![3], max_len: l },
         StepProg { name: "loop", src: "begin push.2 dup neq.0 while.true push.1 sub dup neq.0 end drop end", stack: vec![], max_len: l },
     ]
@@ -196,19 +215,39 @@ fn stepping(ctx: &Ctx, stats: &Mutex<BTreeMap<String, u64>>) {
         let trace = exec_trace(&program, &sp.stack, processor::AdviceInputs::default(), ExecutionOptions::default()).unwrap().expect("stepping program executes");
         let rows = rows_of(&trace, &sp.stack);
         let total: u64 = (0..=sp.max_len).map(|l| 1u64 << l).sum();
-        let all: Vec<Vec<bool>> = (0..=sp.max_len).flat_map(|l| (0..(1u64 << l)).map(move |bits| (0..l).map(|i| (bits >> i) & 1 == 1).collect())).collect();
+        let mut all: Vec<Vec<bool>> = (0..=sp.max_len).flat_map(|l| (0..(1u64 << l)).map(move |bits| (0..l).map(|i| (bits >> i) & 1 == 1).collect())).collect();
         assert_eq!(all.len() as u64, total);
+        // start from non-initial states too: p forward steps (every p up to past the last clock), then
+        // every next/back pattern up to a short length that starts with a change of direction - this puts
+        // a direction change on every row of the trace, in particular on both sides of every context
+        // switch, which the histories from clock 0 above cannot reach in long programs
+        let tail = ctx.tier.pick(6usize, 9usize);
+        for p in (sp.max_len.saturating_sub(1))..=(rows.cycles + 2) {
+            for l in 1..=tail {
+                for bits in 0..(1u64 << (l - 1)) {
+                    let mut h = vec![true; p];
+                    h.push(false);
+                    h.extend((0..l - 1).map(|i| (bits >> i) & 1 == 1));
+                    all.push(h);
+                }
+            }
+        }
+        let total = all.len() as u64;
         all.par_iter().for_each(|h| {
             let hs: String = h.iter().map(|b| if *b { 'n' } else { 'b' }).collect();
             let case = json!({"kind": "step", "program": sp.name, "src": sp.src, "stack": sp.stack, "history": hs});
             match run_history(&program, &sp.stack, h) {
                 Err(p) => ctx.fail(json!({"kind": "step_iterator_panic", "panic": mcx::guard::short_panic(&p)}), format!("{} history {hs}", sp.name), case),
                 Ok((states, drained)) => {
+                    let mut seen_kinds: Vec<String> = vec![];
                     for (i, s) in states.iter().enumerate() {
                         if let Some(s) = s {
-                            if let Some((kind, detail)) = check_state(s, &rows) {
+                            for (kind, detail) in check_state(s, &rows) {
+                                if seen_kinds.contains(&kind) {
+                                    continue;
+                                }
+                                seen_kinds.push(kind.clone());
                                 ctx.fail(json!({"kind": kind, "direction": if h[i] { "next" } else { "back" }}), format!("{} history {hs} step {i}: {detail}", sp.name), case.clone());
-                                break;
                             }
                         }
                     }
@@ -334,7 +373,7 @@ pub fn run(ctx: &Ctx, replay: Option<&Value>) -> i32 {
                                 Some(s) => {
                                     println!("step {i} ({}): clk={} stack={:?}", if h[i] { "next" } else { "back" }, s.clk, s.stack.iter().map(|x| x.as_int()).collect::<Vec<_>>());
                                     println!("   trace row {}: stack={:?}", s.clk, rows.stack.get(s.clk as usize));
-                                    if let Some((kind, detail)) = check_state(s, &rows) {
+                                    for (kind, detail) in check_state(s, &rows) {
                                         ctx.fail(json!({"kind": kind, "direction": if h[i] { "next" } else { "back" }}), detail, case.clone());
                                     }
                                 }
